@@ -48,6 +48,8 @@ def write_inputs(d, sc):
     T = sc["N"] * sc["dt"]
     mid = (sc["N"] // 2) * sc["dt"] or sc["dt"]
     times = sorted(set([0, mid, T + sc["dt"]]))
+    if sc.get("offgrid"):  # the middle frame is NOT on the model's time grid (a quarter step late)
+        times = sorted(set([0, mid + sc["dt"] // 4, T + sc["dt"]]))
 
     def fields(k):
         u = np.zeros((1, N, jmax, imax - 1)); temp = np.zeros((1, N, jmax, imax))
